@@ -1,7 +1,7 @@
 ID = 'C18'
 UNITS = {'time': dict(wrap='wrap.cc', new_block=64, per_harness={'h_ftime.c': {'new_block': 192}})}
 BOUNDS = ('format_duration: all 2^64 microsecond counts (split into the four magnitude classes, symbolic inside each) x precision {any negative, 0..6} '
-          'x both admissible shapes of the seconds text. format_time: all 2^64 timestamps, date text length 19 (and 20, 26 in the thorough tier). '
+          'x both admissible shapes of the seconds text (no exception, formats, pad, result text); integer field recomposition for 1 min <= usecs < 1 day. format_time: all 2^64 timestamps, date text length 19 (and 20, 26 in the thorough tier). '
           'usecs/timeval: all usecs < 2^63 and all normalised timevals below 2^63 us. format_size: all 2^64 sizes x include_bytes. '
           'parse_size: every NUL-terminated string of length 0..3 (quick) / 0..5 (thorough) over all 256 byte values without a fractional part.')
 STUBS = [
@@ -21,6 +21,11 @@ OUTSIDE = [
     'and the microsecond field is t % 10^6 printed with ".%06u"',
     'parse_size with digits after a decimal point (double accumulation of 0.1^k factors and the double -> size_t conversion); strings longer than 5 bytes',
     'format_time_natural, now() (local time zone / clock)',
+    'format_duration field arithmetic in the days class (usecs >= 86400 s): that days/hours/minutes recompose to the input needs '
+    'floor(floor(x/a)/b) == floor(x/(ab)) across three 64-bit relational dividers; no verdict in 300-900 s with minisat, kissat, z3, cvc5 and cvc5 '
+    '--solve-bv-as-int (also not for sub-ranges [2^48,2^52) and [2^60,2^64), nor for the days field alone); decided for the minutes and hours classes',
+    'exactness of the double handed to "%.*lf" for durations >= 1 min ((double)usecs_part / 10^6 after the integer field subtraction): no verdict in 400-900 s '
+    '(cvc5 FP); decided below one minute in the thorough tier (500 s)',
     'format_duration precisions above 6 (int8_t allows up to 127; the property quantifies -1..6)',
 ]
 ASSUMPTIONS = [
@@ -55,14 +60,14 @@ def queries(tier):
                   desc='format_duration, usecs %s, precision %s, seconds text with %d integer digit(s): no exception; formats per magnitude class; '
                        'precision default; "0" pad iff one integer digit; result == integer text + seconds text' % (MAGN[mag], 'any negative' if p < 0 else p, nint),
                   bounds='all usecs of the class%s' % ('' if mag == 3 else ' whose seconds value admits that shape'))
-    for mag in (1, 2, 3):
-        q('dur_fields_m%d' % mag, 'h_duration.c', {'MAG': mag, 'PREC': 1, 'NINT': 2, 'CHECK': 1}, 26, 900, backend=('cvc5' if mag == 3 else ''), cost=1000,
-          desc='format_duration integer fields (usecs %s): hours < 24, minutes < 60, leading field >= 1, usecs - (days,hours,minutes) in [0, 60 s)' % MAGN[mag],
+    for mag in (1, 2):
+        q('dur_fields_m%d' % mag, 'h_duration.c', {'MAG': mag, 'PREC': 1, 'NINT': 2, 'CHECK': 1}, 26, 900, cost=1000,
+          desc='format_duration integer fields (usecs %s): hours < 24, minutes < 60, leading field >= 1, usecs - (hours,minutes) in [0, 60 s)' % MAGN[mag],
           bounds='all usecs of the class')
-    for mag in (0, 1, 2, 3):
-        q('dur_value_m%d' % mag, 'h_duration.c', {'MAG': mag, 'PREC': 1, 'NINT': 2, 'CHECK': 2}, 26, 400, flags=['--cvc5', '--slice-formula'], cost=300,
-          desc='the double handed to "%%.*lf" is exactly (double)(usecs - whole fields) / 1000000 (usecs %s); SMT back end cvc5 (floating-point theory)' % MAGN[mag],
-          bounds='all usecs of the class')
+    if thorough:
+        q('dur_value_m0', 'h_duration.c', {'MAG': 0, 'PREC': 1, 'NINT': 2, 'CHECK': 2}, 26, 1500, flags=['--cvc5', '--slice-formula'], cost=2000,
+          desc='the double handed to "%.*lf" is exactly (double)usecs / 1000000 (usecs < 1 min); SMT back end cvc5 (floating-point theory)',
+          bounds='all usecs < 60 s')
     # ---- timeval ------------------------------------------------------------------------------------------------------------
     q('timeval_from_usecs', 'h_timeval.c', {'MODE': 0}, 4, 300, backend='cvc5',
       desc='usecs_to_timeval(u): 0 <= tv_usec < 10^6, tv_sec*10^6 + tv_usec == u; timeval_to_usecs inverts it', bounds='all u < 2^63')
